@@ -236,6 +236,12 @@ func origins(v ssa.Value) []ssa.Value {
 			walk(x.X)
 		case *ssa.TypeAssert:
 			walk(x.X)
+		case *ssa.Extract:
+			if ta, ok := x.Tuple.(*ssa.TypeAssert); ok && x.Index == 0 {
+				walk(ta.X)
+			} else {
+				out = append(out, v)
+			}
 		default:
 			out = append(out, v)
 		}
